@@ -3,20 +3,23 @@ WEAVE = [dict(file='src/work_stealing_deque.c', stub_calls={'wsd_circular_array_
                           'wsd_work_stealing_deque_pop_bottom': ['wsd_circular_array_destroy'], 'wsd_work_stealing_deque_steal': ['wsd_circular_array_destroy']}, fns=['wsd_circular_array_create', 'wsd_circular_array_grow', 'wsd_work_stealing_deque_push_bottom', 'wsd_work_stealing_deque_pop_bottom', 'wsd_work_stealing_deque_steal'], loops='loops.json'),
          dict(file='include/work_stealing_deque.h', parse='src/work_stealing_deque.c', fns=['wsd_circular_array_get', 'wsd_circular_array_put'])]
 GROUPS = []
+FN_ARR = ['wsd_circular_array_grow', 'wsd_circular_array_create', 'wsd_circular_array_get', 'wsd_circular_array_put']
 for k in (1, 2):
     B = 'arrays of 2^%d slots growing to 2^%d (indices and the observed index unbounded)' % (k, k + 1)
     D = ['-DKLOG=%d' % k, '-DVERIF_LOOP_FLAG']
-    TO = dict(thorough_only=True) if k > 1 else {}
+    T2 = (k > 1)   # the larger instance runs in the thorough tier only; so does the slowest group (push with the real accessors, ~2 min)
     GROUPS += [
-        dict(name='grow_K%d' % k, tu='deque.c', harness='h_grow', mode='H', loop_contracts=True, defs=D, functions=['wsd_circular_array_grow', 'wsd_circular_array_create', 'wsd_circular_array_get', 'wsd_circular_array_put'], bounded=True, bound=B, **TO),
-        dict(name='push_K%d' % k, tu='deque.c', harness='h_push', mode='H', loop_contracts=True, defs=D, timeout=900, functions=['wsd_work_stealing_deque_push_bottom', 'wsd_circular_array_grow', 'wsd_circular_array_create', 'wsd_circular_array_get', 'wsd_circular_array_put'], bounded=True, bound=B, **TO),
-        dict(name='pop_K%d' % k, tu='deque.c', harness='h_pop', mode='H', defs=D, functions=['wsd_work_stealing_deque_pop_bottom', 'wsd_circular_array_get'], bounded=True, bound=B, **TO),
-        dict(name='steal_K%d' % k, tu='deque.c', harness='h_steal', mode='H', defs=D, functions=['wsd_work_stealing_deque_steal', 'wsd_circular_array_get'], bounded=True, bound=B, **TO),
+        dict(name='grow_K%d' % k, tu='deque.c', harness='h_grow', mode='H', loop_contracts=True, defs=D, functions=FN_ARR, bounded=True, bound=B, thorough_only=T2),
+        dict(name='push_K%d' % k, tu='deque.c', harness='h_push', mode='H', loop_contracts=True, defs=D, timeout=900, functions=['wsd_work_stealing_deque_push_bottom'] + FN_ARR, bounded=True, bound=B, thorough_only=True),
+        dict(name='push_capacity_K%d' % k, tu='deque.c', harness='h_push_capacity', mode='H', loop_contracts=True, defs=D, timeout=900, functions=['wsd_work_stealing_deque_push_bottom'] + FN_ARR, bounded=True, bound=B, thorough_only=True),
+        dict(name='pop_K%d' % k, tu='deque.c', harness='h_pop', mode='H', defs=D, functions=['wsd_work_stealing_deque_pop_bottom', 'wsd_circular_array_get'], bounded=True, bound=B, thorough_only=T2),
+        dict(name='steal_K%d' % k, tu='deque.c', harness='h_steal', mode='H', defs=D, functions=['wsd_work_stealing_deque_steal', 'wsd_circular_array_get'], bounded=True, bound=B, thorough_only=T2),
     ]
 GD = ['-DGENERIC', '-DVERIF_LOOP_FLAG']
 GROUPS += [
     dict(name='grow_any_size', tu='deque.c', harness='h_grow', mode='H', loop_contracts=True, defs=GD, functions=['wsd_circular_array_grow']),
     dict(name='push_any_size', tu='deque.c', harness='h_push', mode='H', loop_contracts=True, defs=GD, functions=['wsd_work_stealing_deque_push_bottom', 'wsd_circular_array_grow'], timeout=900),
+    dict(name='push_capacity_any_size', tu='deque.c', harness='h_push_capacity', mode='H', loop_contracts=True, defs=GD, cbmc_flags=['--sat-solver', 'cadical'], functions=['wsd_work_stealing_deque_push_bottom', 'wsd_circular_array_grow'], timeout=900),
     dict(name='pop_any_size', tu='deque.c', harness='h_pop', mode='H', defs=GD, functions=['wsd_work_stealing_deque_pop_bottom']),
     dict(name='steal_any_size', tu='deque.c', harness='h_steal', mode='H', defs=GD, functions=['wsd_work_stealing_deque_steal']),
 ]
